@@ -109,4 +109,1066 @@ theorem runCleanups_inert_aux : ∀ (fuel : Nat) (cls : List Closure) {r r' : Ro
         (fun c hc => hb c (by simp [hc])) ht hx
       exact ⟨.cleanup cl.tag obs :: evs, by simp [e], by simp [ht, Event.cleanupTag]⟩
 
+/-! ### 2. live count -/
+
+theorem liveCount_eq (r : Root) : r.liveCount = r.nodes.toList.countP Option.isSome := by
+  unfold Root.liveCount
+  rw [← Array.foldl_toList]
+  generalize r.nodes.toList = l
+  have : ∀ (l : List (Option Node)) (k : Nat),
+      l.foldl (fun n o => if o.isSome then n + 1 else n) k = k + l.countP Option.isSome := by
+    intro l
+    induction l with
+    | nil => simp
+    | cons o l ih =>
+      intro k
+      simp only [List.foldl_cons, ih, List.countP_cons]
+      cases o <;> simp <;> omega
+  simpa using this l 0
+
+theorem liveCount_set (r : Root) (id : Id) (x : Option Node) (h : id < r.nodes.size) :
+    ({ r with nodes := r.nodes.set! id x } : Root).liveCount + (if (r.get? id).isSome then 1 else 0)
+      = r.liveCount + (if x.isSome then 1 else 0) := by
+  rw [liveCount_eq, liveCount_eq]
+  have hl : id < r.nodes.toList.length := by simpa using h
+  simp only [Array.set!_eq_setIfInBounds, Array.toList_setIfInBounds, List.countP_set hl]
+  have hg : r.get? id = r.nodes.toList[id] := by
+    simp [Root.get?, h]
+  rw [hg]
+  have hpos : (r.nodes.toList[id]).isSome = true → 0 < r.nodes.toList.countP Option.isSome := by
+    intro hs
+    exact List.countP_pos_iff.2 ⟨_, List.getElem_mem hl, hs⟩
+  generalize r.nodes.toList.countP Option.isSome = k at hpos ⊢
+  generalize (r.nodes.toList[id]).isSome = b at hpos ⊢
+  cases b <;> cases hx : x.isSome <;> simp at hpos ⊢ <;> omega
+
+theorem liveCount_setNode {r : Root} {id : Id} {m : Node} (n : Node) (h : r.get? id = some m) :
+    (r.setNode id n).liveCount = r.liveCount := by
+  have hlt := Root.lt_size_of_get? h
+  have := liveCount_set r id (some n) hlt
+  simp [h] at this
+  simp [Root.setNode, hlt, this]
+
+theorem liveCount_remove {r : Root} {id : Id} {m : Node} (h : r.get? id = some m) :
+    (r.remove id).liveCount + 1 = r.liveCount := by
+  have hlt := Root.lt_size_of_get? h
+  have := liveCount_set r id none hlt
+  simp [h] at this
+  simp [Root.remove, hlt, this]
+
+theorem liveCount_modify (r : Root) (id : Id) (f : Node → Node) :
+    (r.modify id f).liveCount = r.liveCount := by
+  unfold Root.modify
+  split
+  · rename_i n hn; exact liveCount_setNode _ hn
+  · rfl
+
+theorem liveCount_foldl_modify (f : Id → Node → Node) (l : List Id) (r : Root) :
+    (l.foldl (fun r d => r.modify d (f d)) r).liveCount = r.liveCount := by
+  induction l generalizing r with
+  | nil => rfl
+  | cons d l ih => simp only [List.foldl_cons, ih, liveCount_modify]
+
+theorem liveCount_removeNode {r : Root} {id : Id} {m : Node} (h : r.get? id = some m) :
+    (removeNode r id).liveCount + 1 = r.liveCount := by
+  simp only [removeNode, h]
+  rw [liveCount_foldl_modify (fun _ n => { n with dependents := n.dependents.filter (· != id) }),
+    liveCount_foldl_modify (fun _ n => { n with dependencies := n.dependencies.filter (· != id) }),
+    liveCount_remove h]
+
+/-! ### 3. removing a set of ids -/
+
+/-- filter the ids of `S` out of both edge lists; all other fields untouched -/
+def eraseIds (S : List Id) (n : Node) : Node :=
+  { n with dependents := n.dependents.filter (fun d => decide (d ∉ S)),
+           dependencies := n.dependencies.filter (fun d => decide (d ∉ S)) }
+
+theorem eraseIds_fields (S : List Id) (n : Node) :
+    (eraseIds S n).value = n.value ∧ (eraseIds S n).callback = n.callback ∧
+    (eraseIds S n).children = n.children ∧ (eraseIds S n).parent = n.parent ∧
+    (eraseIds S n).cleanups = n.cleanups ∧ (eraseIds S n).context = n.context ∧
+    (eraseIds S n).dirty = n.dirty ∧ (eraseIds S n).mark = n.mark ∧
+    (eraseIds S n).dependents = n.dependents.filter (fun d => decide (d ∉ S)) ∧
+    (eraseIds S n).dependencies = n.dependencies.filter (fun d => decide (d ∉ S)) :=
+  ⟨rfl, rfl, rfl, rfl, rfl, rfl, rfl, rfl, rfl, rfl⟩
+
+@[simp] theorem eraseIds_nil (n : Node) : eraseIds [] n = n := by
+  simp [eraseIds, List.filter_eq_self.2]
+
+theorem eraseIds_congr {S S' : List Id} (h : ∀ d, d ∈ S ↔ d ∈ S') : eraseIds S = eraseIds S' := by
+  funext n; simp [eraseIds, h]
+
+theorem eraseIds_eraseIds (S1 S2 : List Id) (n : Node) :
+    eraseIds S2 (eraseIds S1 n) = eraseIds (S1 ++ S2) n := by
+  simp only [eraseIds, List.filter_filter, List.mem_append, not_or]
+  congr 1 <;> (apply List.filter_congr; intro d _; simp [Bool.and_comm])
+
+theorem eraseId_eq_eraseIds (id : Id) : eraseId id = eraseIds [id] := by
+  funext n; simp only [eraseId, eraseIds]
+  congr 1 <;> (apply List.filter_congr; intro d _; by_cases h : d = id <;> simp [h])
+
+/-- `r'` is `r` with exactly the ids of `S` removed, and erased from every surviving edge list -/
+def Removed (r : Root) (S : List Id) (r' : Root) : Prop :=
+  ∀ j, r'.get? j = if j ∈ S then none else (r.get? j).map (eraseIds S)
+
+theorem Removed.refl (r : Root) : Removed r [] r := by
+  intro j; cases r.get? j <;> simp
+
+theorem Removed.trans {r r1 r2 : Root} {S1 S2 : List Id} (h1 : Removed r S1 r1) (h2 : Removed r1 S2 r2) :
+    Removed r (S1 ++ S2) r2 := by
+  intro j
+  rw [h2 j, h1 j]
+  by_cases a : j ∈ S1 <;> by_cases b : j ∈ S2 <;> simp [a, b]
+  cases r.get? j <;> simp [eraseIds_eraseIds]
+
+theorem Removed.congr {r r' : Root} {S S' : List Id} (h : Removed r S r') (hS : ∀ d, d ∈ S ↔ d ∈ S') :
+    Removed r S' r' := by
+  intro j; rw [h j, eraseIds_congr hS]; simp [hS]
+
+theorem removeNode_removed {r : Root} (hnd : NoDangling r) (hs : EdgesSym r) (id : Id) :
+    Removed r [id] (removeNode r id) := by
+  obtain ⟨h0, _, _, h1, _, _⟩ := removeNode_spec hnd hs id
+  intro j
+  by_cases hj : j = id
+  · subst hj; simp [h0]
+  · simp [hj, h1 j hj, eraseId_eq_eraseIds]
+
+/-! ### 4. frames -/
+
+/-- everything of a `Root` except the arena contents is unchanged, and the trace grew by `evs` -/
+structure FrameT (r r' : Root) (evs : List Event) : Prop where
+  size : r'.nodes.size = r.nodes.size
+  tracker : r'.tracker = r.tracker
+  current : r'.current = r.current
+  rootNode : r'.rootNode = r.rootNode
+  queue : r'.queue = r.queue
+  batching : r'.batching = r.batching
+  nextTag : r'.nextTag = r.nextTag
+  trace : r'.trace = r.trace ++ evs
+
+theorem FrameT.refl (r : Root) : FrameT r r [] := ⟨rfl, rfl, rfl, rfl, rfl, rfl, rfl, by simp⟩
+
+theorem FrameT.trans {a b c : Root} {e1 e2 : List Event} (h1 : FrameT a b e1) (h2 : FrameT b c e2) :
+    FrameT a c (e1 ++ e2) :=
+  ⟨h2.size.trans h1.size, h2.tracker.trans h1.tracker, h2.current.trans h1.current,
+   h2.rootNode.trans h1.rootNode, h2.queue.trans h1.queue, h2.batching.trans h1.batching,
+   h2.nextTag.trans h1.nextTag, by rw [h2.trace, h1.trace, List.append_assoc]⟩
+
+theorem FrameT.of_sameFrame {r r' : Root} (h : SameFrame r r') : FrameT r r' [] := by
+  obtain ⟨a1, a2, a3, a4, a5, a6, a7, a8⟩ := h
+  exact ⟨a1, a2, a3, a4, a5, a6, a7, by simp [a8]⟩
+
+/-! ### 5. ownership -/
+
+/-- the part of the ownership invariant that survives every intermediate state of a disposal -/
+structure TreeOk (r : Root) : Prop where
+  /-- every live child points back to its owner -/
+  parent : ∀ i n, r.get? i = some n → ∀ c ∈ n.children, ∀ m, r.get? c = some m → m.parent = some i
+  /-- no id is listed twice -/
+  nodup : ∀ i n, r.get? i = some n → n.children.Nodup
+  /-- creation order: children are younger than their owner -/
+  lt : ∀ i n, r.get? i = some n → ∀ c ∈ n.children, i < c
+
+/-- the ownership invariant of the arena -/
+structure OwnershipOk (r : Root) : Prop extends TreeOk r where
+  /-- a live node whose owner is alive is listed by its owner -/
+  listed : ∀ j m p np, r.get? j = some m → m.parent = some p → r.get? p = some np → j ∈ np.children
+
+/-- the ownership subtree of `root`: `root`, and every live id listed as a child by an owned live
+node -/
+inductive Owned (r : Root) (root : Id) : Id → Prop
+  | root : Owned r root root
+  | child {i j : Id} {n : Node} : Owned r root i → r.get? i = some n → j ∈ n.children →
+      r.alive j = true → Owned r root j
+
+theorem Owned.trans {r : Root} {a b c : Id} (h1 : Owned r a b) (h2 : Owned r b c) : Owned r a c := by
+  induction h2 with
+  | root => exact h1
+  | child _ hn hj ha ih => exact .child ih hn hj ha
+
+/-- `r'` is `r` with some nodes removed and some `children` / `cleanups` lists shortened -/
+def Shrinks (r r' : Root) : Prop :=
+  ∀ j n', r'.get? j = some n' → ∃ n, r.get? j = some n ∧ n'.children.Sublist n.children ∧
+    n'.parent = n.parent ∧ ∀ cl ∈ n'.cleanups, cl ∈ n.cleanups
+
+theorem Shrinks.alive {r r' : Root} (h : Shrinks r r') {j : Id} (ha : r'.alive j = true) :
+    r.alive j = true := by
+  obtain ⟨n', hn'⟩ := Root.alive_iff.1 ha
+  obtain ⟨n, hn, _⟩ := h j n' hn'
+  exact Root.alive_iff.2 ⟨n, hn⟩
+
+theorem Shrinks.treeOk {r r' : Root} (h : Shrinks r r') (t : TreeOk r) : TreeOk r' := by
+  refine ⟨?_, ?_, ?_⟩
+  · intro i n' hn' c hc m' hm'
+    obtain ⟨n, hn, hsub, _, _⟩ := h i n' hn'
+    obtain ⟨m, hm, _, hp, _⟩ := h c m' hm'
+    rw [hp]; exact t.parent i n hn c (hsub.subset hc) m hm
+  · intro i n' hn'
+    obtain ⟨n, hn, hsub, _, _⟩ := h i n' hn'
+    exact (t.nodup i n hn).sublist hsub
+  · intro i n' hn' c hc
+    obtain ⟨n, hn, hsub, _, _⟩ := h i n' hn'
+    exact t.lt i n hn c (hsub.subset hc)
+
+theorem Owned.mono {r r' : Root} (h : Shrinks r r') {a j : Id} (ho : Owned r' a j) : Owned r a j := by
+  induction ho with
+  | root => exact .root
+  | child _ hn hj ha ih =>
+    obtain ⟨n, hn2, hsub, _, _⟩ := h _ _ hn
+    exact .child ih hn2 (hsub.subset hj) (h.alive ha)
+
+theorem Removed.shrinks {r r' : Root} {S : List Id} (h : Removed r S r') : Shrinks r r' := by
+  intro j n' hn'
+  rw [h j] at hn'
+  split at hn'
+  · cases hn'
+  · rw [Option.map_eq_some_iff] at hn'
+    obtain ⟨n, hn, rfl⟩ := hn'
+    exact ⟨n, hn, by simp [eraseIds], rfl, fun cl hcl => hcl⟩
+
+theorem Removed.get?_some {r r' : Root} {S : List Id} (h : Removed r S r') {j : Id} {n' : Node}
+    (hn' : r'.get? j = some n') : j ∉ S ∧ ∃ n, r.get? j = some n ∧ n' = eraseIds S n := by
+  rw [h j] at hn'
+  split at hn'
+  · cases hn'
+  · rename_i hj
+    rw [Option.map_eq_some_iff] at hn'
+    obtain ⟨n, hn, rfl⟩ := hn'
+    exact ⟨hj, n, hn, rfl⟩
+
+theorem Removed.alive {r r' : Root} {S : List Id} (h : Removed r S r') (j : Id) :
+    r'.alive j = (r.alive j && decide (j ∉ S)) := by
+  simp only [Root.alive, h j]
+  by_cases hj : j ∈ S <;> simp [hj]
+
+/-- removing a set of ids and erasing them from all edge lists keeps the edge invariants -/
+theorem Removed.preserves {r r' : Root} {S : List Id} (h : Removed r S r') :
+    (NoDangling r → NoDangling r') ∧ (EdgesSym r → EdgesSym r') := by
+  constructor
+  · intro hnd i n' hn'
+    obtain ⟨_, n, hn, rfl⟩ := h.get?_some hn'
+    obtain ⟨hd1, hd2⟩ := hnd i n hn
+    constructor <;> intro d hd <;> simp [eraseIds, List.mem_filter] at hd <;> rw [h.alive]
+    · simp [hd1 d hd.1, hd.2]
+    · simp [hd2 d hd.1, hd.2]
+  · intro hs a b na' nb' ha hb
+    obtain ⟨haS, na, hna, rfl⟩ := h.get?_some ha
+    obtain ⟨hbS, nb, hnb, rfl⟩ := h.get?_some hb
+    have := hs a b na nb hna hnb
+    simp only [eraseIds]
+    rw [List.count_filter (by simpa using hbS), List.count_filter (by simpa using haS), this]
+
+theorem Removed.ownershipOk {r r' : Root} {S : List Id} (h : Removed r S r') (o : OwnershipOk r) :
+    OwnershipOk r' := by
+  refine ⟨h.shrinks.treeOk o.toTreeOk, ?_⟩
+  intro j m' p np' hm' hp hnp'
+  obtain ⟨_, m, hm, rfl⟩ := h.get?_some hm'
+  obtain ⟨_, np, hnp, rfl⟩ := h.get?_some hnp'
+  exact o.listed j m p np hm hp hnp
+
+/-! ### 6. the ownership forest as a list (pre-order) -/
+
+/-- `Forest r cs S`: `S` lists, in the order in which `disposeList r cs` visits them, the live nodes
+of the ownership subtrees of the roots `cs` -/
+inductive Forest (r : Root) : List Id → List Id → Prop
+  | nil : Forest r [] []
+  | dead {c : Id} {cs S : List Id} : r.get? c = none → Forest r cs S → Forest r (c :: cs) S
+  | live {c : Id} {cs S1 S2 : List Id} {n : Node} : r.get? c = some n → Forest r n.children S1 →
+      Forest r cs S2 → Forest r (c :: cs) (c :: S1 ++ S2)
+
+theorem Forest.nil_inv {r : Root} {S : List Id} (h : Forest r [] S) : S = [] := by cases h; rfl
+
+theorem Forest.append {r : Root} {as bs S1 S2 : List Id} (h1 : Forest r as S1) (h2 : Forest r bs S2) :
+    Forest r (as ++ bs) (S1 ++ S2) := by
+  induction h1 with
+  | nil => simpa using h2
+  | dead hc _ ih => exact .dead hc ih
+  | live hc hk _ _ ih2 =>
+    have := Forest.live hc hk ih2
+    simpa [List.append_assoc] using this
+
+theorem Forest.single_live {r : Root} {c : Id} {n : Node} {S : List Id} (hc : r.get? c = some n)
+    (h : Forest r n.children S) : Forest r [c] (c :: S) := by
+  have := Forest.live hc h .nil
+  simpa using this
+
+theorem Forest.alive {r : Root} {cs S : List Id} (h : Forest r cs S) : ∀ j ∈ S, r.alive j = true := by
+  induction h with
+  | nil => simp
+  | dead _ _ ih => exact ih
+  | live hc _ _ ih1 ih2 =>
+    intro j hj
+    simp only [List.cons_append, List.mem_cons, List.mem_append] at hj
+    rcases hj with rfl | hj | hj
+    · exact Root.alive_iff.2 ⟨_, hc⟩
+    · exact ih1 j hj
+    · exact ih2 j hj
+
+/-- every live root is listed -/
+theorem Forest.root_mem {r : Root} {cs S : List Id} (h : Forest r cs S) :
+    ∀ c ∈ cs, r.alive c = true → c ∈ S := by
+  induction h with
+  | nil => simp
+  | dead hc _ ih =>
+    intro c' hc' ha
+    simp only [List.mem_cons] at hc'
+    rcases hc' with rfl | hc'
+    · simp [Root.alive, hc] at ha
+    · exact ih c' hc' ha
+  | live hc _ _ _ ih2 =>
+    intro c' hc' ha
+    simp only [List.mem_cons] at hc'
+    rcases hc' with rfl | hc'
+    · simp
+    · simp [ih2 c' hc' ha]
+
+/-- every listed node is a root or is listed as a child by a listed node -/
+theorem Forest.reach {r : Root} {cs S : List Id} (h : Forest r cs S) :
+    ∀ j ∈ S, j ∈ cs ∨ ∃ i ∈ S, ∃ n, r.get? i = some n ∧ j ∈ n.children := by
+  induction h with
+  | nil => simp
+  | dead _ _ ih =>
+    intro j hj
+    rcases ih j hj with h | h
+    · exact .inl (by simp [h])
+    · exact .inr h
+  | @live c cs S1 S2 n hc _ _ ih1 ih2 =>
+    intro j hj
+    simp only [List.cons_append, List.mem_cons, List.mem_append] at hj
+    rcases hj with rfl | hj | hj
+    · exact .inl (by simp)
+    · rcases ih1 j hj with h | ⟨i, hi, m, hm, hjm⟩
+      · exact .inr ⟨c, by simp, n, hc, h⟩
+      · exact .inr ⟨i, by simp [hi], m, hm, hjm⟩
+    · rcases ih2 j hj with h | ⟨i, hi, m, hm, hjm⟩
+      · exact .inl (by simp [h])
+      · exact .inr ⟨i, by simp [hi], m, hm, hjm⟩
+
+/-- the list is closed under "live child of" -/
+theorem Forest.closed {r : Root} {cs S : List Id} (h : Forest r cs S) :
+    ∀ i ∈ S, ∀ n, r.get? i = some n → ∀ j ∈ n.children, r.alive j = true → j ∈ S := by
+  induction h with
+  | nil => simp
+  | dead _ _ ih => exact ih
+  | @live c cs S1 S2 n hc hk _ ih1 ih2 =>
+    intro i hi m hm j hj ha
+    simp only [List.cons_append, List.mem_cons, List.mem_append] at hi ⊢
+    rcases hi with rfl | hi | hi
+    · rw [hc] at hm; cases hm
+      exact .inr (.inl (hk.root_mem j hj ha))
+    · exact .inr (.inl (ih1 i hi m hm j hj ha))
+    · exact .inr (.inr (ih2 i hi m hm j hj ha))
+
+/-- with creation order, every listed id is at least one of the roots -/
+theorem Forest.ge_root {r : Root} (t : TreeOk r) {cs S : List Id} (h : Forest r cs S) :
+    ∀ j ∈ S, ∃ c ∈ cs, c ≤ j := by
+  induction h with
+  | nil => simp
+  | dead _ _ ih =>
+    intro j hj
+    obtain ⟨c, hc, hle⟩ := ih j hj
+    exact ⟨c, by simp [hc], hle⟩
+  | @live c cs S1 S2 n hc _ _ ih1 ih2 =>
+    intro j hj
+    simp only [List.cons_append, List.mem_cons, List.mem_append] at hj
+    rcases hj with rfl | hj | hj
+    · exact ⟨j, by simp, Nat.le_refl _⟩
+    · obtain ⟨c', hc', hle⟩ := ih1 j hj
+      have := t.lt c n hc c' hc'
+      exact ⟨c, by simp, Nat.le_trans (Nat.le_of_lt this) hle⟩
+    · obtain ⟨c', hc', hle⟩ := ih2 j hj
+      exact ⟨c', by simp [hc'], hle⟩
+
+theorem Owned.root_alive {r : Root} {a j : Id} (ho : Owned r a j) (ha : r.alive j = true) :
+    r.alive a = true := by
+  induction ho with
+  | root => exact ha
+  | child _ hn _ _ ih => exact ih (Root.alive_iff.2 ⟨_, hn⟩)
+
+/-- membership in the forest list = live and owned by one of the roots -/
+theorem Forest.mem_iff {r : Root} {cs S : List Id} (h : Forest r cs S) (j : Id) :
+    j ∈ S ↔ (∃ c ∈ cs, Owned r c j) ∧ r.alive j = true := by
+  constructor
+  · intro hj
+    refine ⟨?_, h.alive j hj⟩
+    induction h generalizing j with
+    | nil => simp at hj
+    | dead _ _ ih =>
+      obtain ⟨c, hc, ho⟩ := ih j hj
+      exact ⟨c, by simp [hc], ho⟩
+    | @live c cs S1 S2 n hc hk _ ih1 ih2 =>
+      simp only [List.cons_append, List.mem_cons, List.mem_append] at hj
+      rcases hj with rfl | hj | hj
+      · exact ⟨j, by simp, .root⟩
+      · obtain ⟨c', hc', ho⟩ := ih1 j hj
+        have hc'a : r.alive c' = true := ho.root_alive (hk.alive _ hj)
+        exact ⟨c, by simp, Owned.trans (.child .root hc hc' hc'a) ho⟩
+      · obtain ⟨c', hc', ho⟩ := ih2 j hj
+        exact ⟨c', by simp [hc'], ho⟩
+  · rintro ⟨⟨c, hc, ho⟩, ha⟩
+    induction ho with
+    | root => exact h.root_mem c hc ha
+    | child ho' hn hj ha' ih =>
+      exact h.closed _ (ih (Root.alive_iff.2 ⟨_, hn⟩)) _ hn _ hj ha
+
+/-- transfer of a forest between two arenas that agree (liveness, `children`) on a hereditary set of
+"good" ids containing the roots -/
+theorem Forest.transfer {r r' : Root} (Good : Id → Prop)
+    (hdead : ∀ j, Good j → r'.get? j = none → r.get? j = none)
+    (hlive : ∀ j n', Good j → r'.get? j = some n' →
+      ∃ n, r.get? j = some n ∧ n.children = n'.children ∧ ∀ c ∈ n'.children, Good c)
+    {cs S : List Id} (h : Forest r' cs S) (hg : ∀ c ∈ cs, Good c) : Forest r cs S := by
+  induction h with
+  | nil => exact .nil
+  | dead hc _ ih =>
+    exact .dead (hdead _ (hg _ (by simp)) hc) (ih fun c hc => hg c (by simp [hc]))
+  | live hc _ _ ih1 ih2 =>
+    obtain ⟨n, hn, hch, hgc⟩ := hlive _ _ (hg _ (by simp)) hc
+    exact .live hn (hch ▸ ih1 hgc) (ih2 fun c hc => hg c (by simp [hc]))
+
+/-! ### 7. the specification of disposal -/
+
+/-- the cleanups registered on node `j` (`[]` if dead) -/
+def cleanupsOf (r : Root) (j : Id) : List Closure :=
+  match r.get? j with
+  | some n => n.cleanups
+  | none => []
+
+/-- the invariants used during a disposal (they hold in every intermediate state) -/
+structure DispInv (r : Root) : Prop where
+  nd : NoDangling r
+  sym : EdgesSym r
+  tree : TreeOk r
+
+/-- all cleanups registered in the ownership subtrees of `cs` are inert -/
+def InertIn (r : Root) (cs : List Id) : Prop :=
+  ∀ c ∈ cs, ∀ j n, Owned r c j → r.get? j = some n → ∀ cl ∈ n.cleanups, InertBody cl.body
+
+/-- no live node lists a live member of `cs` as a child -/
+def Unlisted (r : Root) (cs : List Id) : Prop :=
+  ∀ c ∈ cs, r.alive c = true → ∀ i n, r.get? i = some n → c ∉ n.children
+
+/-- outcome of disposing the roots `cs`: exactly the forest `S` is removed, `evs` is appended to the
+trace -/
+structure Disposed (r : Root) (cs : List Id) (r' : Root) (S : List Id) (evs : List Event) : Prop where
+  forest : Forest r cs S
+  removed : Removed r S r'
+  frame : FrameT r r' evs
+  nodup : S.Nodup
+  count : r'.liveCount + S.length = r.liveCount
+  tags : evs.map Event.cleanupTag = (S.flatMap (cleanupsOf r)).map (fun cl => some cl.tag)
+
+theorem flatMap_congr' {α β : Type} {f g : α → List β} {l : List α} (h : ∀ a ∈ l, f a = g a) :
+    l.flatMap f = l.flatMap g := by
+  induction l with
+  | nil => rfl
+  | cons a l ih =>
+    simp only [List.flatMap_cons, h a (by simp)]
+    rw [ih fun b hb => h b (by simp [hb])]
+
+theorem Removed.dispInv {r r' : Root} {S : List Id} (h : Removed r S r') (inv : DispInv r) : DispInv r' :=
+  ⟨h.preserves.1 inv.nd, h.preserves.2 inv.sym, h.shrinks.treeOk inv.tree⟩
+
+theorem Removed.cleanupsOf {r r' : Root} {S : List Id} (h : Removed r S r') {j : Id}
+    (ha : r'.alive j = true) : cleanupsOf r' j = cleanupsOf r j := by
+  obtain ⟨n', hn'⟩ := Root.alive_iff.1 ha
+  obtain ⟨_, n, hn, rfl⟩ := h.get?_some hn'
+  simp [Reactive.cleanupsOf, hn', hn, eraseIds]
+
+def PNode (f : Nat) : Prop :=
+  ∀ r id r', DispInv r → InertIn r [id] → disposeNode f r id = .ok r' → ∃ S evs, Disposed r [id] r' S evs
+
+def PList (f : Nat) : Prop :=
+  ∀ r cs r', DispInv r → InertIn r cs → cs.Nodup → Unlisted r cs → disposeList f r cs = .ok r' →
+    ∃ S evs, Disposed r cs r' S evs
+
+/-- the forest removed by disposing the first root is closed under "is listed by", so the rest of
+the roots see their own subtrees untouched -/
+theorem forest_tail_transfer {r r2 : Root} {c : Id} {cs S1 S2 : List Id} (inv : DispInv r)
+    (hnd : (c :: cs).Nodup) (hun : Unlisted r (c :: cs)) (h1 : Forest r [c] S1)
+    (hrem : Removed r S1 r2) (h2 : Forest r2 cs S2) : Forest r cs S2 := by
+  -- a member of `S1` that is listed by a live node `j` has `j ∈ S1`
+  have closed : ∀ x ∈ S1, ∀ j n, r.get? j = some n → x ∈ n.children → j ∈ S1 := by
+    intro x hx j n hn hxn
+    have hxa := h1.alive x hx
+    rcases h1.reach x hx with hxc | ⟨i, hi, m, hm, hxm⟩
+    · simp only [List.mem_singleton] at hxc; subst hxc
+      exact absurd hxn (hun x (by simp) hxa j n hn)
+    · obtain ⟨mx, hmx⟩ := Root.alive_iff.1 hxa
+      have p1 := inv.tree.parent i m hm x hxm mx hmx
+      have p2 := inv.tree.parent j n hn x hxn mx hmx
+      rw [p1] at p2; cases p2; exact hi
+  refine Forest.transfer (fun j => j ∉ S1 ∨ r.get? j = none) ?_ ?_ h2 ?_
+  · intro j hg hj
+    rcases hg with hg | hg
+    · rw [hrem j, if_neg hg] at hj
+      cases h : r.get? j with
+      | none => rfl
+      | some n => simp [h] at hj
+    · exact hg
+  · intro j n' _ hn'
+    obtain ⟨hjS, n, hn, rfl⟩ := hrem.get?_some hn'
+    refine ⟨n, hn, rfl, ?_⟩
+    intro x hx
+    by_cases hxS : x ∈ S1
+    · exact absurd (closed x hxS j n hn hx) hjS
+    · exact .inl hxS
+  · intro x hx
+    by_cases hxa : r.alive x = true
+    · left
+      intro hxS
+      rcases h1.reach x hxS with hxc | ⟨i, _, m, hm, hxm⟩
+      · simp only [List.mem_singleton] at hxc; subst hxc
+        exact (List.nodup_cons.1 hnd).1 hx
+      · exact hun x (by simp [hx]) hxa i m hm hxm
+    · right
+      simpa [Root.alive] using hxa
+
+/-- after disposing the first root, everything needed to dispose the remaining roots still holds -/
+theorem tail_state {r r2 : Root} {c : Id} {cs S1 : List Id} (inv : DispInv r) (inert : InertIn r (c :: cs))
+    (hun : Unlisted r (c :: cs)) (hrem : Removed r S1 r2) :
+    DispInv r2 ∧ InertIn r2 cs ∧ Unlisted r2 cs := by
+  refine ⟨hrem.dispInv inv, ?_, ?_⟩
+  · intro c' hc' j n' ho hn' cl hcl
+    obtain ⟨_, n, hn, rfl⟩ := hrem.get?_some hn'
+    exact inert c' (by simp [hc']) j n (ho.mono hrem.shrinks) hn cl hcl
+  · intro c' hc' ha i n' hn'
+    obtain ⟨_, n, hn, rfl⟩ := hrem.get?_some hn'
+    exact hun c' (by simp [hc']) (hrem.shrinks.alive ha) i n hn
+
+theorem pList_succ {f : Nat} (hN : PNode f) (hL : PList f) : PList (f + 1) := by
+  intro r cs r' inv inert hnd hun hx
+  cases cs with
+  | nil =>
+    simp only [disposeList] at hx
+    cases hx
+    exact ⟨[], [], .nil, .refl r, .refl r, by simp, by simp, by simp⟩
+  | cons c cs =>
+    simp only [disposeList] at hx
+    split at hx
+    · cases hx
+    · rename_i r2 h1
+      obtain ⟨S1, e1, D1⟩ := hN r c r2 inv (fun c' hc' => inert c' (by simp_all)) h1
+      obtain ⟨inv2, inert2, hun2⟩ := tail_state inv inert hun D1.removed
+      obtain ⟨S2, e2, D2⟩ := hL r2 cs r' inv2 inert2 (List.nodup_cons.1 hnd).2 hun2 hx
+      refine ⟨S1 ++ S2, e1 ++ e2, ?_, D1.removed.trans D2.removed, D1.frame.trans D2.frame, ?_, ?_, ?_⟩
+      · exact Forest.append D1.forest (forest_tail_transfer inv hnd hun D1.forest D1.removed D2.forest)
+      · refine List.nodup_append.2 ⟨D1.nodup, D2.nodup, ?_⟩
+        intro a ha b hb hab
+        subst hab
+        have := D2.forest.alive a hb
+        rw [D1.removed.alive] at this
+        simp [ha] at this
+      · have := D1.count; have := D2.count
+        simp only [List.length_append]; omega
+      · simp only [List.map_append, List.flatMap_append, D1.tags, D2.tags]
+        rw [flatMap_congr' fun j hj => D1.removed.cleanupsOf (D2.forest.alive j hj)]
+
+
+/-- general form of `Removed.preserves`: only the edge lists of the survivors matter -/
+theorem edges_preserves {r r' : Root} {S : List Id}
+    (h : ∀ j n', r'.get? j = some n' → j ∉ S ∧ ∃ n, r.get? j = some n ∧
+      n'.dependents = (eraseIds S n).dependents ∧ n'.dependencies = (eraseIds S n).dependencies)
+    (halive : ∀ j, r.alive j = true → j ∉ S → r'.alive j = true) :
+    (NoDangling r → NoDangling r') ∧ (EdgesSym r → EdgesSym r') := by
+  constructor
+  · intro hnd i n' hn'
+    obtain ⟨_, n, hn, e1, e2⟩ := h i n' hn'
+    obtain ⟨hd1, hd2⟩ := hnd i n hn
+    rw [e1, e2]
+    constructor <;> intro d hd <;> simp [eraseIds, List.mem_filter] at hd
+    · exact halive d (hd1 d hd.1) hd.2
+    · exact halive d (hd2 d hd.1) hd.2
+  · intro hs a b na' nb' ha hb
+    obtain ⟨haS, na, hna, e1, _⟩ := h a na' ha
+    obtain ⟨hbS, nb, hnb, _, e2⟩ := h b nb' hb
+    have := hs a b na nb hna hnb
+    rw [e1, e2]
+    simp only [eraseIds]
+    rw [List.count_filter (by simpa using hbS), List.count_filter (by simpa using haS), this]
+
+/-- what `disposeChildren` leaves of the node itself -/
+def cleared (n : Node) : Node := { n with cleanups := [], children := [], context := [] }
+
+/-- outcome of `disposeChildren r id` on a live node `n`: the forest `S` below `id` is removed, `id`
+itself survives, cleared -/
+structure DisposedC (r : Root) (id : Id) (n : Node) (r' : Root) (S : List Id) (evs : List Event) : Prop where
+  forest : Forest r n.children S
+  get : ∀ j, r'.get? j = if j ∈ S then none else
+    if j = id then some (cleared (eraseIds S n)) else (r.get? j).map (eraseIds S)
+  frame : FrameT r r' evs
+  nodup : S.Nodup
+  gt : ∀ j ∈ S, id < j
+  count : r'.liveCount + S.length = r.liveCount
+  tags : evs.map Event.cleanupTag = (n.cleanups ++ S.flatMap (cleanupsOf r)).map (fun cl => some cl.tag)
+
+/-- `disposeChildren` keeps the edge invariants -/
+theorem DisposedC.edges {r r' : Root} {id : Id} {n : Node} {S : List Id} {evs : List Event}
+    (D : DisposedC r id n r' S evs) (hn : r.get? id = some n) :
+    (NoDangling r → NoDangling r') ∧ (EdgesSym r → EdgesSym r') := by
+  refine edges_preserves (S := S) ?_ ?_
+  · intro j n' hn'
+    rw [D.get] at hn'
+    split at hn'
+    · cases hn'
+    · rename_i hjS
+      split at hn'
+      · rename_i hj; subst hj; cases hn'
+        exact ⟨hjS, n, hn, rfl, rfl⟩
+      · rw [Option.map_eq_some_iff] at hn'
+        obtain ⟨m, hm, rfl⟩ := hn'
+        exact ⟨hjS, m, hm, rfl, rfl⟩
+  · intro j ha hjS
+    obtain ⟨m, hm⟩ := Root.alive_iff.1 ha
+    simp only [Root.alive, D.get, hjS, if_false]
+    split <;> simp [hm]
+
+/-- an ownership path either is trivial or starts with a live child of the root -/
+theorem Owned.head {r : Root} {a j : Id} (h : Owned r a j) :
+    j = a ∨ ∃ c n, r.get? a = some n ∧ c ∈ n.children ∧ r.alive c = true ∧ Owned r c j := by
+  induction h with
+  | root => exact .inl rfl
+  | @child i j n _ hn hj ha ih =>
+    right
+    rcases ih with rfl | ⟨c, m, hm, hc, hca, hoc⟩
+    · exact ⟨j, n, hn, hj, ha, .root⟩
+    · exact ⟨c, m, hm, hc, hca, .child hoc hn hj ha⟩
+
+def PChildren (f : Nat) : Prop :=
+  ∀ r id n r', DispInv r → InertIn r [id] → r.get? id = some n → disposeChildren f r id = .ok r' →
+    ∃ S evs, DisposedC r id n r' S evs
+
+/-- the state in which `disposeChildren` disposes the children: node `id` has its `cleanups` and
+`children` taken out; everything needed for the children's disposal still holds -/
+theorem children_state {r ra : Root} {id : Id} {n : Node} (inv : DispInv r) (hn : r.get? id = some n)
+    (hnodes : ra.nodes = (r.setNode id { n with cleanups := [], children := [] }).nodes) :
+    (∀ j, ra.get? j = if j = id then some { n with cleanups := [], children := [] } else r.get? j) ∧
+    Shrinks r ra ∧ DispInv ra ∧ (InertIn r [id] → InertIn ra n.children) ∧ Unlisted ra n.children := by
+  have hlt := Root.lt_size_of_get? hn
+  have hget : ∀ j, ra.get? j = if j = id then some { n with cleanups := [], children := [] } else r.get? j := by
+    intro j
+    have := Root.get?_setNode r id j { n with cleanups := [], children := [] }
+    simp only [hlt, and_true] at this
+    rw [← this]; simp only [Root.get?, hnodes]
+  have hsh : Shrinks r ra := by
+    intro j n' hn'
+    rw [hget] at hn'
+    split at hn'
+    · rename_i hj; subst hj; cases hn'
+      exact ⟨n, hn, by simp, rfl, by simp⟩
+    · exact ⟨n', hn', List.Sublist.refl _, rfl, fun _ h => h⟩
+  have hedges := sameEdges_preserves (r := r) (r' := ra) (fun j =>
+    ⟨fun m => if j = id then { m with cleanups := [], children := [] } else m,
+      fun m => by split <;> simp,
+      by rw [hget]; by_cases hj : j = id
+         · subst hj; simp [hn]
+         · cases r.get? j <;> simp [hj]⟩)
+  refine ⟨hget, hsh, ⟨hedges.1 inv.nd, hedges.2 inv.sym, hsh.treeOk inv.tree⟩, ?_, ?_⟩
+  · intro inert c hc j n' ho hn' cl hcl
+    obtain ⟨m, hm, _, _, hcls⟩ := hsh j n' hn'
+    have ho' := ho.mono hsh
+    have hca := ho'.root_alive (Root.alive_iff.2 ⟨m, hm⟩)
+    exact inert id (by simp) j m (Owned.trans (.child .root hn hc hca) ho') hm cl (hcls cl hcl)
+  · intro c hc ha i ni hni hci
+    rw [hget] at hni
+    split at hni
+    · cases hni; simp at hci
+    · rename_i hi
+      obtain ⟨mc, hmc⟩ := Root.alive_iff.1 (hsh.alive ha)
+      have p1 := inv.tree.parent i ni hni c hci mc hmc
+      have p2 := inv.tree.parent id n hn c hc mc hmc
+      rw [p1] at p2; cases p2; exact hi rfl
+
+theorem pChildren_core {f : Nat} (hL : PList f) {r ra r3 : Root} {id : Id} {n : Node} {e0 : List Event}
+    (inv : DispInv r) (inert : InertIn r [id]) (hn : r.get? id = some n)
+    (hnodes : ra.nodes = (r.setNode id { n with cleanups := [], children := [] }).nodes)
+    (hfr : FrameT r ra e0) (ht0 : e0.map Event.cleanupTag = n.cleanups.map (fun cl => some cl.tag))
+    (h3 : disposeList f ra n.children = .ok r3) :
+    ∃ S evs, DisposedC r id n (r3.modify id fun n => { n with context := [] }) S evs := by
+  obtain ⟨hget, hsh, inv_a, hinert, hun⟩ := children_state inv hn hnodes
+  have inert_a := hinert inert
+  obtain ⟨S, evs, D⟩ := hL ra n.children r3 inv_a inert_a (inv.tree.nodup id n hn) hun h3
+  have hgt : ∀ j ∈ S, id < j := by
+    intro j hj
+    obtain ⟨c, hc, hle⟩ := D.forest.ge_root inv_a.tree j hj
+    exact Nat.lt_of_lt_of_le (inv.tree.lt id n hn c hc) hle
+  have hidS : id ∉ S := fun h => Nat.lt_irrefl _ (hgt id h)
+  refine ⟨S, e0 ++ evs, ?_, ?_, ?_, D.nodup, hgt, ?_, ?_⟩
+  · refine Forest.transfer (fun j => id < j) ?_ ?_ D.forest (inv.tree.lt id n hn)
+    · intro j hj hd
+      rw [hget, if_neg (Nat.ne_of_gt hj)] at hd; exact hd
+    · intro j n' hj hn'
+      rw [hget, if_neg (Nat.ne_of_gt hj)] at hn'
+      exact ⟨n', hn', rfl, fun c hc => Nat.lt_trans hj (inv.tree.lt j n' hn' c hc)⟩
+  · intro j
+    rw [Root.get?_modify]
+    by_cases hj : j = id
+    · subst hj; rw [D.removed j, hget j]; simp [hidS, cleared, eraseIds]
+    · rw [D.removed j, hget j]; by_cases hjS : j ∈ S <;> simp [hj, hjS]
+  · have := (hfr.trans D.frame).trans
+      (FrameT.of_sameFrame (SameFrame.modify r3 id fun n => { n with context := [] }))
+    simpa using this
+  · rw [liveCount_modify, D.count]
+    have : ra.liveCount = (r.setNode id { n with cleanups := [], children := [] }).liveCount := by
+      simp only [Root.liveCount, hnodes]
+    rw [this, liveCount_setNode _ hn]
+  · simp only [List.map_append, ht0, D.tags]
+    congr 2
+    apply flatMap_congr'
+    intro j hj
+    have : j ≠ id := Nat.ne_of_gt (hgt j hj)
+    simp [cleanupsOf, hget, this]
+
+theorem pChildren_succ {f : Nat} (hL : PList f) : PChildren (f + 1) := by
+  intro r id n r' inv inert hn hx
+  simp only [disposeChildren, hn] at hx
+  split at hx
+  · cases hx
+  · rename_i r2 h2
+    split at hx
+    · cases hx
+    · rename_i r3 h3
+      cases hx
+      obtain ⟨e0, hr2, ht0⟩ := runCleanups_inert_aux f n.cleanups
+        (fun cl hcl => inert id (by simp) id n .root hn cl hcl) rfl h2
+      subst hr2
+      refine pChildren_core hL inv inert hn ?_ ?_ ht0 h3
+      · rfl
+      obtain ⟨a1, a2, a3, a4, a5, a6, a7, a8⟩ := SameFrame.setNode r id { n with cleanups := [], children := [] }
+      exact ⟨a1, a2, a3, a4, a5, a6, a7, by simp [a8]⟩
+
+theorem pNode_succ {f : Nat} (hC : PChildren f) : PNode (f + 1) := by
+  intro r id r' inv inert hx
+  simp only [disposeNode] at hx
+  split at hx
+  · cases hx
+  · rename_i r2 h1
+    cases hx
+    cases hn : r.get? id with
+    | none =>
+      cases f with
+      | zero => simp [disposeChildren] at h1
+      | succ f =>
+        simp only [disposeChildren, hn] at h1
+        cases h1
+        rw [removeNode_dead hn]
+        exact ⟨[], [], .dead hn .nil, .refl r, .refl r, by simp, by simp, by simp⟩
+    | some n =>
+      obtain ⟨S, evs, D⟩ := hC r id n r2 inv inert hn h1
+      have hid2 : r2.get? id = some (cleared (eraseIds S n)) := by
+        have : id ∉ S := fun h => Nat.lt_irrefl _ (D.gt id h)
+        rw [D.get]; simp [this]
+      have hedges := D.edges hn
+      have hrem := removeNode_removed (hedges.1 inv.nd) (hedges.2 inv.sym) id
+      refine ⟨id :: S, evs, Forest.single_live hn D.forest, ?_, ?_, ?_, ?_, ?_⟩
+      · intro j
+        rw [hrem j, D.get]
+        by_cases hj : j = id
+        · subst hj; simp
+        · by_cases hjS : j ∈ S
+          · simp [hj, hjS]
+          · simp only [hj, if_false, hjS, List.mem_cons, false_or]
+            cases r.get? j with
+            | none => rfl
+            | some m =>
+              simp only [Option.map_some, eraseIds_eraseIds]
+              rw [eraseIds_congr (S := S ++ [id]) (S' := id :: S) (by simp; intro d; exact Or.comm)]
+              simp
+      · have := D.frame.trans (FrameT.of_sameFrame (removeNode_spec (hedges.1 inv.nd) (hedges.2 inv.sym) id).2.2.2.2.1)
+        simpa using this
+      · exact List.nodup_cons.2 ⟨fun h => Nat.lt_irrefl _ (D.gt id h), D.nodup⟩
+      · have := liveCount_removeNode hid2
+        have := D.count
+        simp only [List.length_cons]; omega
+      · rw [D.tags]; simp [cleanupsOf, hn]
+
+theorem dispose_all (f : Nat) : PNode f ∧ PList f ∧ PChildren f := by
+  induction f with
+  | zero =>
+    refine ⟨?_, ?_, ?_⟩
+    · intro r id r' _ _ hx; simp [disposeNode] at hx
+    · intro r cs r' _ _ _ _ hx; simp [disposeList] at hx
+    · intro r id n r' _ _ _ hx; simp [disposeChildren] at hx
+  | succ f ih => exact ⟨pNode_succ ih.2.2, pList_succ ih.1 ih.2.1, pChildren_succ ih.2.1⟩
+
+/-! ### 8. totality: inert cleanups that read live, valued handles do not fail -/
+
+def bodyLen : Body → Nat
+  | .nil => 0
+  | .cons _ rest => bodyLen rest + 1
+
+/-- the handle index an inert statement refers to -/
+def stmtHandle : Stmt → Option Nat
+  | .read h => some h
+  | .readU h => some h
+  | .track h => some h
+  | _ => none
+
+/-- every statement of the body names a handle of the environment of kind signal/memo whose node
+satisfies `P` -/
+def HandlesOk (env : List Handle) (P : Id → Prop) : Body → Prop
+  | .nil => True
+  | .cons s rest =>
+    (∀ h, stmtHandle s = some h → ∃ hd, env[h]? = some hd ∧ isValueKind hd.kind = true ∧ P hd.id) ∧
+    HandlesOk env P rest
+
+theorem HandlesOk.mono {env : List Handle} {P Q : Id → Prop} (hPQ : ∀ x, P x → Q x) :
+    ∀ {b : Body}, HandlesOk env P b → HandlesOk env Q b
+  | .nil, _ => trivial
+  | .cons _ _, h => ⟨fun x hx => by
+      obtain ⟨hd, h1, h2, h3⟩ := h.1 x hx
+      exact ⟨hd, h1, h2, hPQ _ h3⟩, HandlesOk.mono hPQ h.2⟩
+
+/-- the node is alive and holds a value (`get_untracked` does not panic) -/
+def HasValue (r : Root) (x : Id) : Prop := ∃ n v, r.get? x = some n ∧ n.value = some v
+
+theorem execStmt_inert_ok {fuel : Nat} {r : Root} {c : Ctx} {s : Stmt} (hs : InertStmt s)
+    (hh : ∀ h, stmtHandle s = some h → ∃ hd, c.env[h]? = some hd ∧ isValueKind hd.kind = true ∧ HasValue r hd.id)
+    (ht : r.tracker = none) : ∃ c', execStmt (fuel + 1) r c s = .ok (r, c') ∧ c'.env = c.env := by
+  cases s <;> simp only [InertStmt] at hs
+  · rename_i h
+    obtain ⟨hd, h1, h2, n, v, hn, hv⟩ := hh h rfl
+    have htr : track r hd.id = r := by simp [track, ht]
+    exact ⟨{ c with acc := mix c.acc v, obs := c.obs ++ [.read hd.id v] },
+      by simp [execStmt, lookup, h1, h2, htr, getUntracked, hn, hv], rfl⟩
+  · rename_i h
+    obtain ⟨hd, h1, h2, n, v, hn, hv⟩ := hh h rfl
+    exact ⟨{ c with acc := mix c.acc v, obs := c.obs ++ [.read hd.id v] },
+      by simp [execStmt, lookup, h1, h2, getUntracked, hn, hv], rfl⟩
+  · rename_i h
+    obtain ⟨hd, h1, h2, _⟩ := hh h rfl
+    have htr : track r hd.id = r := by simp [track, ht]
+    exact ⟨c, by simp [execStmt, lookup, h1, h2, htr], rfl⟩
+
+theorem execBody_inert_ok : ∀ (fuel : Nat) {r : Root} {c : Ctx} {b : Body}, InertBody b →
+    HandlesOk c.env (HasValue r) b → r.tracker = none → bodyLen b + 1 ≤ fuel →
+    ∃ c', execBody fuel r c b = .ok (r, c')
+  | 0, _, _, _, _, _, _, hf => by omega
+  | fuel + 1, r, c, .nil, _, _, _, _ => ⟨c, by simp [execBody]⟩
+  | fuel + 1, r, c, .cons s rest, hb, hh, ht, hf => by
+    simp only [bodyLen] at hf
+    obtain ⟨f', rfl⟩ : ∃ f', fuel = f' + 1 := ⟨fuel - 1, by omega⟩
+    obtain ⟨c1, h1, he⟩ := execStmt_inert_ok (fuel := f') (c := c) hb.1 hh.1 ht
+    obtain ⟨c2, h2⟩ := execBody_inert_ok (f' + 1) (c := c1) hb.2 (he ▸ hh.2) ht (by omega)
+    exact ⟨c2, by simp only [execBody, h1, h2]⟩
+
+theorem runClosure_inert_ok {fuel : Nat} {r : Root} {cl : Closure} (hb : InertBody cl.body)
+    (hh : HandlesOk cl.env (HasValue r) cl.body) (ht : r.tracker = none)
+    (hf : bodyLen cl.body + 2 ≤ fuel) : ∃ v obs, runClosure fuel r cl = .ok (r, v, obs) := by
+  obtain ⟨f', rfl⟩ : ∃ f', fuel = f' + 1 := ⟨fuel - 1, by omega⟩
+  obtain ⟨c', h⟩ := execBody_inert_ok f' (r := r) (c := ⟨cl.env, 0, []⟩) hb hh ht (by omega)
+  exact ⟨c'.acc, c'.obs, by simp only [runClosure, h]⟩
+
+/-- fuel that suffices to run a list of inert cleanups -/
+def cleanupsFuel : List Closure → Nat
+  | [] => 1
+  | cl :: cls => bodyLen cl.body + 3 + cleanupsFuel cls
+
+theorem runCleanups_inert_ok : ∀ (cls : List Closure) (fuel : Nat) {r : Root},
+    (∀ cl ∈ cls, InertBody cl.body ∧ HandlesOk cl.env (HasValue r) cl.body) → r.tracker = none →
+    cleanupsFuel cls ≤ fuel → ∃ r', runCleanups fuel r cls = .ok r'
+  | [], fuel, r, _, _, hf => by
+    obtain ⟨f', rfl⟩ : ∃ f', fuel = f' + 1 := ⟨fuel - 1, by simp [cleanupsFuel] at hf; omega⟩
+    exact ⟨r, by simp [runCleanups]⟩
+  | cl :: cls, fuel, r, h, ht, hf => by
+    simp only [cleanupsFuel] at hf
+    obtain ⟨f', rfl⟩ : ∃ f', fuel = f' + 1 := ⟨fuel - 1, by omega⟩
+    obtain ⟨v, obs, h1⟩ := runClosure_inert_ok (fuel := f') (h cl (by simp)).1 (h cl (by simp)).2 ht (by omega)
+    obtain ⟨r', h2⟩ := runCleanups_inert_ok cls f' (r := { r with trace := r.trace ++ [.cleanup cl.tag obs] })
+      (fun c hc => h c (by simp [hc])) ht (by omega)
+    exact ⟨r', by simp only [runCleanups, h1, h2]⟩
+
+theorem cleanupsFuel_pos (cls : List Closure) : 1 ≤ cleanupsFuel cls := by
+  cases cls <;> simp [cleanupsFuel]; omega
+
+/-- the cleanups of the subtrees of `cs` only read live, valued nodes outside these subtrees -/
+def ReadableIn (r : Root) (cs : List Id) : Prop :=
+  ∀ c ∈ cs, ∀ j n, Owned r c j → r.get? j = some n → ∀ cl ∈ n.cleanups,
+    HandlesOk cl.env (fun x => HasValue r x ∧ ∀ c' ∈ cs, ¬ Owned r c' x) cl.body
+
+/-- size bounds that determine the fuel -/
+structure Bounds (r : Root) (K W : Nat) : Prop where
+  children : ∀ j n, r.get? j = some n → n.children.length ≤ K
+  cleanups : ∀ j n, r.get? j = some n → cleanupsFuel n.cleanups ≤ W
+
+/-- fuel that suffices to dispose a node `id` with `r.nodes.size - id ≤ m` -/
+def needFuel (K W m : Nat) : Nat := W + 3 + m * (K + 3)
+
+theorem needFuel_succ (K W m : Nat) : needFuel K W (m + 1) = needFuel K W m + (K + 3) := by
+  simp only [needFuel, Nat.add_mul]; omega
+
+def TNode (K W m : Nat) : Prop :=
+  ∀ r id, r.nodes.size - id ≤ m → DispInv r → InertIn r [id] → ReadableIn r [id] → Bounds r K W →
+    ∀ f, needFuel K W m ≤ f → ∃ r', disposeNode f r id = .ok r'
+
+def TList (K W m : Nat) : Prop :=
+  ∀ cs r, (∀ c ∈ cs, r.nodes.size - c ≤ m) → DispInv r → InertIn r cs → ReadableIn r cs → cs.Nodup →
+    Unlisted r cs → Bounds r K W →
+    ∀ f, needFuel K W m + cs.length + 1 ≤ f → ∃ r', disposeList f r cs = .ok r'
+
+theorem Removed.hasValue {r r' : Root} {S : List Id} (h : Removed r S r') {x : Id}
+    (hv : HasValue r x) (hx : x ∉ S) : HasValue r' x := by
+  obtain ⟨n, v, hn, hnv⟩ := hv
+  exact ⟨eraseIds S n, v, by rw [h x, if_neg hx, hn]; rfl, hnv⟩
+
+theorem tList_of_tNode {K W m : Nat} (hN : TNode K W m) : TList K W m := by
+  intro cs
+  induction cs with
+  | nil =>
+    intro r _ _ _ _ _ _ _ f hf
+    obtain ⟨f', rfl⟩ : ∃ f', f = f' + 1 := ⟨f - 1, by omega⟩
+    exact ⟨r, by simp [disposeList]⟩
+  | cons c cs ih =>
+    intro r hsz inv inert hread hnd hun hb f hf
+    simp only [List.length_cons] at hf
+    obtain ⟨f', rfl⟩ : ∃ f', f = f' + 1 := ⟨f - 1, by omega⟩
+    have inert1 : InertIn r [c] := fun c' hc' => inert c' (by simp_all)
+    have hread1 : ReadableIn r [c] := by
+      intro c' hc' j n ho hn cl hcl
+      simp only [List.mem_singleton] at hc'; subst hc'
+      refine (hread c' (by simp) j n ho hn cl hcl).mono ?_
+      intro x hx
+      exact ⟨hx.1, fun c'' hc'' => hx.2 c'' (by simp_all)⟩
+    obtain ⟨r2, h1⟩ := hN r c (hsz c (by simp)) inv inert1 hread1 hb f' (by omega)
+    obtain ⟨S1, e1, D1⟩ := (dispose_all f').1 r c r2 inv inert1 h1
+    obtain ⟨inv2, inert2, hun2⟩ := tail_state inv inert hun D1.removed
+    have hread2 : ReadableIn r2 cs := by
+      intro c' hc' j n' ho hn' cl hcl
+      obtain ⟨_, n, hn, rfl⟩ := D1.removed.get?_some hn'
+      refine (hread c' (by simp [hc']) j n (ho.mono D1.removed.shrinks) hn cl hcl).mono ?_
+      intro x hx
+      have hxS : x ∉ S1 := by
+        intro hxS
+        have := (D1.forest.mem_iff x).1 hxS
+        obtain ⟨⟨c0, hc0, ho0⟩, _⟩ := this
+        simp only [List.mem_singleton] at hc0; subst hc0
+        exact hx.2 c0 (by simp) ho0
+      exact ⟨D1.removed.hasValue hx.1 hxS,
+        fun c'' hc'' ho'' => hx.2 c'' (by simp [hc'']) (ho''.mono D1.removed.shrinks)⟩
+    have hb2 : Bounds r2 K W := by
+      constructor
+      · intro j n' hn'
+        obtain ⟨_, n, hn, rfl⟩ := D1.removed.get?_some hn'
+        exact hb.children j n hn
+      · intro j n' hn'
+        obtain ⟨_, n, hn, rfl⟩ := D1.removed.get?_some hn'
+        exact hb.cleanups j n hn
+    obtain ⟨r', h2⟩ := ih r2 (fun c' hc' => by rw [D1.frame.size]; exact hsz c' (by simp [hc']))
+      inv2 inert2 hread2 (List.nodup_cons.1 hnd).2 hun2 hb2 f' (by omega)
+    exact ⟨r', by simp only [disposeList, h1, h2]⟩
+
+theorem tNode_dead {K W m : Nat} {r : Root} {id : Id} (hn : r.get? id = none) (f : Nat)
+    (hf : needFuel K W m ≤ f) : ∃ r', disposeNode f r id = .ok r' := by
+  obtain ⟨f', rfl⟩ : ∃ f', f = f' + 2 := ⟨f - 2, by simp only [needFuel] at hf; omega⟩
+  exact ⟨r, by simp [disposeNode, disposeChildren, hn, removeNode]⟩
+
+theorem sz_step (s i c m : Nat) (h1 : s - i ≤ m + 1) (h2 : i < c) : s - c ≤ m := by omega
+
+theorem tNode_succ {K W m : Nat} (hL : TList K W m) : TNode K W (m + 1) := by
+  intro r id hsz inv inert hread hb f hf
+  cases hn : r.get? id with
+  | none => exact tNode_dead hn f hf
+  | some n =>
+    rw [needFuel_succ] at hf
+    have hW : W + 3 ≤ needFuel K W m := by simp only [needFuel]; omega
+    obtain ⟨f2, rfl⟩ : ∃ f2, f = f2 + 2 := ⟨f - 2, by omega⟩
+    -- the state in which the cleanups run
+    obtain ⟨hget1, _, _, _, _⟩ := children_state
+      (ra := { (r.setNode id { n with cleanups := [], children := [] }) with tracker := none }) inv hn rfl
+    have hv1 : ∀ x, HasValue r x →
+        HasValue { (r.setNode id { n with cleanups := [], children := [] }) with tracker := none } x := by
+      intro x ⟨nx, v, hnx, hv⟩
+      by_cases hx : x = id
+      · subst hx; rw [hn] at hnx; cases hnx
+        exact ⟨{ n with cleanups := [], children := [] }, v, by rw [hget1]; simp, hv⟩
+      · exact ⟨nx, v, by rw [hget1]; simp [hx, hnx], hv⟩
+    obtain ⟨r2, h2⟩ := runCleanups_inert_ok n.cleanups f2
+      (r := { (r.setNode id { n with cleanups := [], children := [] }) with tracker := none })
+      (fun cl hcl => ⟨inert id (by simp) id n .root hn cl hcl,
+        (hread id (by simp) id n .root hn cl hcl).mono fun x hx => hv1 x hx.1⟩) rfl
+      (by have := hb.cleanups id n hn; omega)
+    obtain ⟨e0, hr2, _⟩ := runCleanups_inert_aux f2 n.cleanups
+      (fun cl hcl => inert id (by simp) id n .root hn cl hcl) rfl h2
+    subst hr2
+    -- the state in which the children are disposed
+    generalize hra : ({ ({ ({ (r.setNode id { n with cleanups := [], children := [] }) with tracker := none } : Root) with
+        trace := ({ (r.setNode id { n with cleanups := [], children := [] }) with tracker := none } : Root).trace ++ e0 } : Root) with
+        tracker := (r.setNode id { n with cleanups := [], children := [] }).tracker } : Root) = ra
+    have hnodes : ra.nodes = (r.setNode id { n with cleanups := [], children := [] }).nodes := by
+      subst hra; rfl
+    obtain ⟨hget, hsh, inv_a, hinert, hun⟩ := children_state inv hn hnodes
+    have hsize : ra.nodes.size = r.nodes.size := by
+      rw [hnodes]; exact (SameFrame.setNode r id _).1
+    have hread_a : ReadableIn ra n.children := by
+      intro c hc j n' ho hn' cl hcl
+      obtain ⟨mj, hmj, _, _, hcls⟩ := hsh j n' hn'
+      have ho' := ho.mono hsh
+      have hca := ho'.root_alive (Root.alive_iff.2 ⟨mj, hmj⟩)
+      refine (hread id (by simp) j mj (Owned.trans (.child .root hn hc hca) ho') hmj cl (hcls cl hcl)).mono ?_
+      intro x hx
+      have hxid : x ≠ id := fun e => hx.2 id (by simp) (e ▸ .root)
+      obtain ⟨nx, v, hnx, hv⟩ := hx.1
+      refine ⟨⟨nx, v, by rw [hget]; simp [hxid, hnx], hv⟩, ?_⟩
+      intro c' hc' hox
+      have hox' := hox.mono hsh
+      have hc'a := hox'.root_alive (Root.alive_iff.2 ⟨nx, hnx⟩)
+      exact hx.2 id (by simp) (Owned.trans (.child .root hn hc' hc'a) hox')
+    have hb_a : Bounds ra K W := by
+      constructor
+      · intro j n' hn'
+        rw [hget] at hn'
+        split at hn'
+        · cases hn'; simp
+        · exact hb.children j n' hn'
+      · intro j n' hn'
+        rw [hget] at hn'
+        split at hn'
+        · cases hn'
+          have := hb.cleanups id n hn
+          have := cleanupsFuel_pos n.cleanups
+          simp only [cleanupsFuel]; omega
+        · exact hb.cleanups j n' hn'
+    obtain ⟨r3, h3⟩ := hL n.children ra
+      (fun c hc => by rw [hsize]; exact sz_step _ _ _ _ hsz (inv.tree.lt id n hn c hc))
+      inv_a (hinert inert) hread_a (inv.tree.nodup id n hn) hun hb_a f2
+      (by have := hb.children id n hn; omega)
+    subst hra
+    refine ⟨removeNode (r3.modify id fun n => { n with context := [] }) id, ?_⟩
+    simp only [disposeNode, disposeChildren, hn, h2, h3]
+
+theorem tNode_all (K W : Nat) : ∀ m, TNode K W m
+  | 0 => by
+    intro r id hsz _ _ _ _ f hf
+    exact tNode_dead (Root.get?_eq_none_of_size_le (by omega)) f hf
+  | m + 1 => tNode_succ (tList_of_tNode (tNode_all K W m))
+
+
+/-- a bound for a per-node quantity: its sum over the arena -/
+def sumOver (r : Root) (g : Node → Nat) : Nat :=
+  (r.nodes.toList.map fun o => match o with | some n => g n | none => 0).sum
+
+theorem le_sum_of_mem {l : List Nat} {a : Nat} (h : a ∈ l) : a ≤ l.sum := by
+  induction l with
+  | nil => simp at h
+  | cons b l ih =>
+    simp only [List.mem_cons] at h
+    simp only [List.sum_cons]
+    rcases h with rfl | h
+    · omega
+    · have := ih h; omega
+
+theorem le_sumOver {r : Root} {j : Id} {n : Node} (g : Node → Nat) (h : r.get? j = some n) :
+    g n ≤ sumOver r g := by
+  apply le_sum_of_mem
+  rw [List.mem_map]
+  refine ⟨some n, ?_, rfl⟩
+  have hlt := Root.lt_size_of_get? h
+  simp only [Root.get?, Array.getElem?_eq_getElem hlt, Option.join_some] at h
+  rw [← h]; simp
+
+theorem bounds_exist (r : Root) :
+    Bounds r (sumOver r fun n => n.children.length) (sumOver r fun n => cleanupsFuel n.cleanups) :=
+  ⟨fun _ _ h => le_sumOver (fun n => n.children.length) h,
+   fun _ _ h => le_sumOver (fun n => cleanupsFuel n.cleanups) h⟩
+
 end SycVerif.Reactive
